@@ -417,7 +417,12 @@ def run_kani_job(job, src, tdir, logdir, playback=False):
 def extract_playback_test(txt):
     """All generated unit tests that witness a *failing check* (cover witnesses are skipped)."""
     blocks = re.findall(r"```\n(.*?)```", txt, re.S)
-    keep = [b for b in blocks if "#[test]" in b and not re.search(r"/// Check for `cover`", b)]
+    tests = [b for b in blocks if "#[test]" in b]
+    keep = [b for b in tests if not re.search(r"/// Check for `cover`", b)]
+    if not keep:
+        # Kani sometimes emits only the cover witnesses: they are still solver-produced inputs of this
+        # harness, and the harness's assertions run natively on them - replay them all
+        keep = tests
     if not keep:
         return None
     return "\n".join(keep)
